@@ -11,6 +11,7 @@ def dispatch (j : Json) : R Json := do
   | "hash" => DHash.handle j
   | "realtime" => DRt.handle j
   | "dirsrc" => DJournal.handleDir j
+  | "export" => DJournal.handleExport j
   | k => throw s!"unknown kind {k}"
 
 partial def loop (hin hout : IO.FS.Stream) : IO Unit := do
